@@ -34,7 +34,9 @@ class G:
             return "(%s > %s ? %s : %s)" % (a, b, a, b)
         if k < 0.88:
             self.features.add("array")
-            return "[%s, %s, %s].map(x => x + 1).reduce((p, c) => p + c, 0)" % (a, b, r.randint(0, 5))
+            if r.random() < 0.5:
+                return "[%s, %s, %s].map(x => x + 1).reduce((p, c) => p + c, 0)" % (a, b, r.randint(0, 5))
+            return "[%s, %s].map(function (x) { { let y = {v: x}; if (y.v > 2) { return y.v; } } return 0; }).reduce((p, c) => p + c, 0)" % (a, b)
         if k < 0.94:
             self.features.add("object")
             return "({a: %s, b: {c: %s}}).b.c" % (a, b)
